@@ -32,12 +32,13 @@ META["text"] = (
     "formula equals mjraw_PlaneSphere (C43_mjx_plane_sphere).  TIED on every run: each kernel is evaluated at binary64 inside Coq on the same inputs as the "
     "C function of the working tree (drivers of C12/C13/C05) AND the MJX function of the working tree (solver.Context.create -> _update_constraint; "
     "collision_primitive.plane_sphere / sphere_sphere / plane_capsule / sphere_capsule / capsule_capsule; forward._advance / _integrate_pos / "
-    "_next_activation), tolerance 2^-30 scaled (residuals lying exactly on a cone-zone boundary are compared on the C side only: inside one jit+vmap call "
+    "_next_activation; constraint._kbi against efc_KBIP of one-row models), tolerance 2^-30 scaled (residuals lying exactly on a cone-zone boundary are compared on the C side only: inside one jit+vmap call "
     "XLA evaluates MJX's zone masks in several fusions and they can disagree at such measure-zero points; counted in the evidence); two implementations that agree with one model on the same inputs agree with each other.  "
     "MJX's sphere_capsule and capsule_capsule regularise the closest-point computation with + 1e-6 (math.closest_segment_point): they are compared at 1e-4 relative on dist/pos and 2^-8 on the normal (segments of half-length >= 0.15, capsule axes at least 37 degrees and 0.6 (r1 + r2) apart) and "
     "the measured deviation from the C kernel is recorded (it exceeds floating-point tolerance; reported as an observation).  SUPPORT (no theorem): whole "
     "pipeline: a C driver builds models of a restricted family (free/ball/hinge/slide trees, springs, dampers, armature, motors and position actuators, "
-    "fixed and spatial tendons with stiffness, damping and dead-band spring ranges in states below / inside / above the band, "
+    "fixed and spatial tendons with stiffness, damping and dead-band spring ranges in states below / inside / above the band, every kind of constraint row (joint "
+    "equalities, friction loss, joint limits, contacts) with its own solref in the standard and in the direct form and its own solimp, rows active and moving, "
     "sphere/capsule/plane contacts with condim 1 and 3, pyramidal and elliptic cones, Euler/RK4/implicitfast) through the mjSpec API of this tree and dumps "
     "xpos, xquat, qM, qfrc_bias, qfrc_passive, qfrc_actuator, contacts, efc_J, efc_aref, efc_D, qacc and the next state; the harness prints the equivalent MJCF, "
     "the wheel parses it, repo-MJX put_model/forward/step run on it and the outputs are compared at 1e-6 relative (counts in the evidence; put_model raising "
@@ -356,6 +357,13 @@ INT_PRE = ("Definition js_of (l : list Z) := map jtype_of_Z l.\n"
            "Definition chk_act (c : bool * float * float * float * float * bool * float * float * float) : bool :=\n"
            "  match c with (ex, h, a, ad, p0, lim, lo, hi, r) => fclose tol (nextActivation (T:=float) ex h a ad p0 lim lo hi) r end.\n" % TOL)
 
+KB_PRE = ("Definition tolk : float := %s%%float.\n"
+          "(* (refsafe, h, s0, s1, dmax, K and B of the C engine, k and b of MJX) *)\n"
+          "Definition chk_kb (c : bool * float * float * float * float * float * float * float * float) : bool :=\n"
+          "  match c with (rs, h, s0, s1, dmax, kc, bc, kx, bx) =>\n"
+          "    let '(k1, b1) := c_kb (T:=float) rs h s0 s1 dmax in let '(k2, b2) := mjx_kb (T:=float) rs h s0 s1 dmax in\n"
+          "    andb (andb (fclose tolk k1 kc) (fclose tolk b1 bc)) (andb (andb (fclose tolk k2 kx) (fclose tolk b2 bx)) (andb (fclose tolk k1 kx) (fclose tolk b1 bx))) end.\n" % TOL)
+
 FEATS = [0x7FFFF, 0x1 | 0x2 | 0x4 | 0x40 | 0x80 | 0x1000, 0x2 | 0x4 | 0x40 | 0x80 | 0x400, 0x1 | 0x8000 | 0x40 | 0x80]
 
 
@@ -397,6 +405,31 @@ def compare_pipeline(M, c, x, stats, worst, notes):
             stats["field_comparisons"] = stats.get("field_comparisons", 0) + 1
             if not d <= tol:
                 fails.append((f, d, tol, si))
+        # equality / friction-loss / limit rows: MJX keeps a static row per candidate (zero Jacobian when inactive); every C row is matched
+        # with the MJX row of the same class whose Jacobian is nearest, then J, aref, D and pos are compared
+        cls_c = [(0, sc["ne"]), (sc["ne"], sc["ne"] + sc["nf"]), (sc["ne"] + sc["nf"], sc["ne"] + sc["nf"] + sc["nl"])]
+        cls_x = [(0, sx["ne"]), (sx["ne"], sx["ne"] + sx["nf"]), (sx["ne"] + sx["nf"], sx["ne"] + sx["nf"] + sx["nl"])]
+        Jc_all, Jx_all = flat(sc["efc_J"]), flat(sx["efc_J"])
+        for cname, (c0, c1), (x0, x1) in zip(("equality", "friction", "limit"), cls_c, cls_x):
+            usedx = set()
+            for i in range(c0, c1):
+                Ji = Jc_all[i * nv:(i + 1) * nv]
+                cand = [k for k in range(x0, x1) if k not in usedx]
+                if not cand:
+                    fails.append(("%s row %d of the C engine has no MJX counterpart" % (cname, i), float("inf"), 0, si))
+                    continue
+                k = min(cand, key=lambda k: sum((a - b) ** 2 for a, b in zip(Ji, Jx_all[k * nv:(k + 1) * nv])))
+                usedx.add(k)
+                stats["row_comparisons"] = stats.get("row_comparisons", 0) + 1
+                for what, a, b in (("efc_J", Ji, Jx_all[k * nv:(k + 1) * nv]), ("efc_aref", [sc["efc_aref"][i]], [sx["efc_aref"][k]]),
+                                   ("efc_D", [sc["efc_D"][i]], [sx["efc_D"][k]]), ("efc_pos", [sc["efc_pos"][i] - sc["efc_margin"][i]], [sx["efc_pos"][k]])):
+                    if what == "efc_pos" and cname != "limit":
+                        continue
+                    d = rel(a, b)
+                    key = fam + ":" + cname + "." + what
+                    worst[key] = max(worst.get(key, 0.0), d)
+                    if not d <= tol:
+                        fails.append(("%s row %s" % (cname, what), d, tol, si))
         xc = sx["contact"]
         act = [i for i in range(len(xc["dist"])) if xc["dist"][i] < xc["includemargin"][i]]
         if len(act) != len(sc["contact"]):
@@ -437,6 +470,39 @@ def compare_pipeline(M, c, x, stats, worst, notes):
     return fails
 
 
+JDOTV_SIG = {"site": "mjx constraint equality", "class": "jdotv-correction-missing"}
+
+
+def jdotv_replay(ctx, M, states, c, x, sup):
+    """C engine of this tree: efc_aref of connect / weld rows = -B vel - K I pos - Jdot*v (mj_Jdotv); MJX has no such term.  The replay reports
+    under JDOTV_SIG only when the difference is exactly of that class: MJX's aref equals -B vel - K I pos evaluated from the C engine's own
+    efc_KBIP, efc_vel, efc_pos, every other stage output up to efc_J agrees, and the C value differs.  Until the coordinator registers the
+    signature the result is recorded in the evidence instead of being emitted."""
+    rec = {"registered": any(k.get("property") == "C43" and k.get("match") == JDOTV_SIG for k in ctx.kf.get("findings", [])), "states": []}
+    sup["jdotv_replay"] = rec
+    if "error" in c or "error" in x or "notimpl" in x:
+        ctx.broken.append(("oracle", "fixed replay connect_moving could not be run", str(c.get("error")) + str(x.get("error")) + str(x.get("notimpl"))))
+        return
+    for si, (sc, sx) in enumerate(zip(c["states"], x["states"])):
+        ne = sc["ne"]
+        pre = max(rel(sc[f], sx[f]) for f in ("xpos", "xquat", "qM", "qfrc_bias", "qfrc_passive", "qacc_smooth"))
+        nv = c["dims"]["nv"]
+        dJ = rel(flat(sc["efc_J"])[:ne * nv], flat(sx["efc_J"])[:ne * nv])
+        formula = [-sc["efc_KBIP"][4 * i + 1] * sc["efc_vel"][i] - sc["efc_KBIP"][4 * i] * sc["efc_KBIP"][4 * i + 2] * (sc["efc_pos"][i] - sc["efc_margin"][i]) for i in range(ne)]
+        d_x_formula = rel(formula, sx["efc_aref"][:ne])
+        d_c_x = rel(sc["efc_aref"][:ne], sx["efc_aref"][:ne])
+        exact = pre <= 1e-9 and dJ <= 1e-9 and d_x_formula <= 1e-9
+        rec["states"].append({"aref_c_vs_mjx": float("%.3g" % d_c_x), "mjx_vs_formula_without_jdotv": float("%.3g" % d_x_formula),
+                              "qacc_c_vs_mjx": float("%.3g" % rel(sc["qacc"], sx["qacc"])), "exactly_this_class": bool(exact and d_c_x > 1e-6)})
+        if d_c_x > 1e-6:
+            if exact and not rec["registered"]:
+                continue            # candidate finding reported to the coordinator; recorded in the evidence
+            ctx.violation("impl_violation", {"family": "connect_moving", "mjcf": MM.to_xml(M), "state": states[si], "quantity": "efc_aref of connect rows"},
+                          expected="MJX efc_aref equals the C engine's (1e-6 relative)", observed="relative difference %.3g" % d_c_x, theorem=None,
+                          signature=JDOTV_SIG if exact else {"site": "mjx pipeline", "quantity": "efc_aref"},
+                          note="fixed replay; exactly_this_class=%s" % exact)
+
+
 # ================================================================================================ the check
 def run(ctx):
     rng = ctx.rng
@@ -464,8 +530,8 @@ def run(ctx):
         return
 
     # ------------------------------------------------------------------ whole-pipeline job first (longest MJX run)
-    fams = ["tendons", rng.choice(["smooth", "contact1", "contact3", "spheres"])] if quick else \
-           (["tendons"] * 4 + ["smooth"] * 6 + ["contact1"] * 4 + ["contact3"] * 5 + ["spheres"] * 4 + ["capsules"] * 3)
+    fams = ["connect_moving", "tendons", "solparams", rng.choice(["smooth", "contact1", "contact3", "spheres"])] if quick else \
+           (["connect_moving"] + ["tendons"] * 4 + ["solparams"] * 8 + ["smooth"] * 6 + ["contact1"] * 4 + ["contact3"] * 5 + ["spheres"] * 4 + ["capsules"] * 3)
     pmodels, pinp, pjobs = [], "", []
     for fam in fams:
         M = MM.reorder_depth_first(MM.make_model(rng, fam))
@@ -474,8 +540,7 @@ def run(ctx):
         pinp += MM.to_lines(M, states)
         pjobs.append({"op": "pipeline", "xml": MM.to_xml(M), "states": states})
     half = (len(pjobs) + 1) // 2
-    fut_pipe = [pool.submit(run_mjx, ctx, pjobs[:half], 3000), pool.submit(run_mjx, ctx, pjobs[half:], 3000)] if not quick else \
-               [pool.submit(run_mjx, ctx, pjobs, 900)]
+    fut_pipe = [pool.submit(run_mjx, ctx, pjobs[:half], 3000), pool.submit(run_mjx, ctx, pjobs[half:], 3000)]
     rc, pout, perr = ctx.run(exe43, pinp, timeout=600)
     pc = []
     if rc != 0:
@@ -570,14 +635,48 @@ def run(ctx):
         act_jobs.append({"op": "act", "acts": [[w["dyn"], w["prm0"], w["lim"], w["lo"], w["hi"]] for w in keep], "h": hh,
                          "cases": [[w["act"] for w in keep] + [w["act_dot"] for w in keep]]})
         act_cases.append(keep)
+    # K4: stiffness / damping / impedance of the reference acceleration: one limited slide joint per case, violated by `viol`
+    kb_cases, kinp = [], ""
+    for k in range(30 if quick else 400):
+        Mk = {"family": "kb", "bodies": [], "wgeoms": [], "acts": [], "wsites": [], "tendons": [], "eqs": [], "collide": False,
+              "opt": {"timestep": rng.choice([0.001, 0.002, 0.005, 0.01]), "gravity": [0.0, 0.0, -9.81], "cone": 0, "integrator": 0, "solver": 2, "iterations": 100,
+                      "impratio": 1.0, "tolerance": 1e-10, "disableflags": rng.choice([0, 1 << 12])}}
+        sr, si = MM.rand_solref(rng), MM.rand_solimp(rng)
+        if k % 7 == 6:
+            si[0] = si[1]                       # flat impedance
+        Mk["bodies"].append({"parent": -1, "pos": [0, 0, 1], "quat": [1, 0, 0, 0], "sites": [], "geoms": [MM.geom(2, [0.05])],
+                             "joints": [MM.joint(2, axis=[1, 0, 0], limited=True, rng_=(-0.2, 0.3), solref_limit=sr, solimp_limit=si)]})
+        viol = rng.choice([rng.uniform(0.0005, 0.1), si[2] * rng.uniform(0.05, 1.5), si[2] * si[3]])
+        st = {"qpos": [0.3 + viol], "qvel": [rng.uniform(-0.5, 0.5)], "ctrl": []}
+        kinp += MM.to_lines(Mk, [st])
+        kb_cases.append({"M": Mk, "state": st, "solref": sr, "solimp": si, "h": Mk["opt"]["timestep"], "refsafe": not Mk["opt"]["disableflags"]})
+    rc, kout, kerr2 = ctx.run(exe43, kinp, timeout=600)
+    klines = [l for l in kout.split("\n") if l.strip()]
+    if rc != 0 or len(klines) != len(kb_cases):
+        ctx.broken.append(("correspondence", "driver c43_dump failed (K/B/I cases)", "rc=%s lines=%d/%d %s" % (rc, len(klines), len(kb_cases), kerr2[-300:])))
+        kb_cases = []
+    kb_jobs = []
+    for c, l in zip(kb_cases, klines):
+        r = json.loads(l)
+        stt = r["states"][0] if r.get("states") else {}
+        if stt.get("nl") != 1 or stt.get("nefc") != 1:
+            c["skip"] = True
+            continue
+        c["c"] = stt["efc_KBIP"][:3]
+        c["pos"] = stt["efc_pos"][0] - stt["efc_margin"][0]
+    for flag in (True, False):
+        cs = [c for c in kb_cases if not c.get("skip") and c["refsafe"] == flag]
+        if cs:
+            kb_jobs.append({"op": "kbi", "refsafe": flag, "cases": [c["solref"] + c["solimp"] + [c["pos"], c["h"]] for c in cs]})
     lap("c_drivers")
 
     # ------------------------------------------------------------------ MJX kernel run
-    fk1 = pool.submit(run_mjx, ctx, cu_jobs + act_jobs, 1500 if quick else 3000)
+    fk1 = pool.submit(run_mjx, ctx, cu_jobs + act_jobs + kb_jobs, 1500 if quick else 3000)
     fk2 = pool.submit(run_mjx, ctx, prim_jobs + eul_jobs, 1500 if quick else 3000)
     (r1, e1), (r2, e2) = fk1.result(), fk2.result()
     kerr = e1 or e2
-    kres = None if (r1 is None or r2 is None) else (r1[:len(cu_jobs)] + r2[:len(prim_jobs)] + r2[len(prim_jobs):] + r1[len(cu_jobs):])
+    kres = None if (r1 is None or r2 is None) else (r1[:len(cu_jobs)] + r2[:len(prim_jobs)] + r2[len(prim_jobs):] + r1[len(cu_jobs):len(cu_jobs) + len(act_jobs)])
+    kbres = [] if r1 is None else r1[len(cu_jobs) + len(act_jobs):]
     lap("mjx_kernels")
     props_ok = fut_props.result()
     if not props_ok:
@@ -688,6 +787,25 @@ def run(ctx):
                 lits_a.append("(%s, %s)" % (base, fl(xo[k]))); back_a.append(("MJX", w))
     fut4 = pool.submit(ctx.coq_eval, "c43_act", pre_i, lits_a, "chk_act", 400, 1500, "Open Scope float_scope.\n" + INT_PRE)
 
+    # ---- K4 literals
+    lits_k, back_k = [], []
+    for j, r in zip(kb_jobs, kbres):
+        cs = [c for c in kb_cases if not c.get("skip") and c["refsafe"] == j["refsafe"]]
+        if job_fail(j, r, "kbi"):
+            ctx.broken.append(("correspondence", "MJX constraint._kbi could not be run", json.dumps(r)[:600]))
+            continue
+        for c, o in zip(cs, r["out"]):
+            c["x"] = o
+            lits_k.append("(%s, %s, %s, %s, %s, %s, %s, %s, %s)" % ("true" if c["refsafe"] else "false", fl(c["h"]), fl(c["solref"][0]), fl(c["solref"][1]), fl(c["solimp"][1]),
+                                                                   fl(c["c"][0]), fl(c["c"][1]), fl(o[0]), fl(o[1])))
+            back_k.append(c)
+            if rel([c["c"][2]], [o[2]]) > 1e-9:
+                ctx.violation("impl_violation", {"op": "constraint impedance", "solref": c["solref"], "solimp": c["solimp"], "pos_minus_margin": c["pos"], "timestep": c["h"]},
+                              expected="impedance of the C engine (efc_KBIP[2]): %r" % c["c"][2], observed="mjx constraint._kbi: %r" % o[2], theorem=None,
+                              signature={"site": "mjx constraint._kbi", "quantity": "impedance"}, note="C function and MJX function compared directly (no model)")
+    fut5 = pool.submit(ctx.coq_eval, "c43_kb", "From Coq Require Import ZArith List Bool PrimFloat.\nImport ListNotations.\nFrom MJV Require Import Lib.Num Lib.NumF Model.Spatial Model.ConstraintUpdate Model.MjxKernels.\n",
+                       lits_k, "chk_kb", 400, 1500, "Open Scope float_scope.\n" + KB_PRE)
+
     # ---- results of the four model evaluations
     fails = fut1.result()
     seen = set()
@@ -746,6 +864,16 @@ def run(ctx):
                       theorem="correspondence activation update (C05_act_clamp_after)",
                       signature={"site": "mj_nextActivation" if side == "C" else "mjx forward._next_activation"})
     ncorr += len(fails)
+    fails = fut5.result()
+    for i in fails[:4]:
+        c = back_k[i]
+        both = rel(c["c"][:2], c["x"][:2]) > 1e-6
+        ctx.violation("correspondence", {"op": "K, B of the reference acceleration", "solref": c["solref"], "solimp": c["solimp"], "timestep": c["h"], "refsafe": c["refsafe"],
+                                         "mjcf": MM.to_xml(c["M"]), "state": c["state"]},
+                      expected="Model/MjxKernels.v c_kb / mjx_kb (float run)", observed={"C_efc_KBIP": c["c"], "mjx_kbi": c["x"]}, found_input=bool(both),
+                      theorem="correspondence K/B (C43_mjx_kb, C43_kb_meaning)", signature={"site": "mjx constraint._kbi" if both else "K/B model"},
+                      note="C engine, MJX and the Coq model are compared pairwise%s" % ("; MJX differs from the C engine" if both else ""))
+    ncorr += len(fails)
     lap("coq_integ")
 
     # ------------------------------------------------------------------ whole pipeline (support)
@@ -761,6 +889,9 @@ def run(ctx):
     stats, worst, notes = {}, {}, []
     if px is not None and pc and len(pc) == len(pmodels) == len(px):
         for (M, states), c, x in zip(pmodels, pc, px):
+            if M.get("known") == "jdotv":
+                jdotv_replay(ctx, M, states, c, x, sup)
+                continue
             for what, d, tol, si in compare_pipeline(M, c, x, stats, worst, notes)[:3]:
                 ctx.violation("impl_violation", {"family": M["family"], "mjcf": MM.to_xml(M), "state": states[si] if si >= 0 else None, "quantity": what},
                               expected="MJX (working tree, float64) equals the C engine of the working tree within %g relative" % tol,
@@ -776,7 +907,8 @@ def run(ctx):
     sup["mjx_row_law_cases_exactly_on_a_zone_boundary"] = {"not_compared": nbound_x[0], "of_which_mjx_force_differs_from_c_by_more_than_1e-6": nbound_x[1],
                                                          "note": "XLA fusion artefact at measure-zero points: zone masks evaluated inconsistently inside one jit+vmap call"}
     sup["activations_with_dyntype_unsupported_by_mjx"] = nskip_dyn[0]
-    ctx.cov["evaluations"] = len(cu_cases) + ncu + len(lits) + len(lits_e) + len(lits_a)
+    ctx.cov["evaluations"] = len(cu_cases) + ncu + len(lits) + len(lits_e) + len(lits_a) + len(lits_k)
+    sup["kb_cases"] = len(lits_k)
     ctx.cov["distinct_nontrivial"] = ncu + nprim_x + sum(1 for s, _ in back_e if s == "MJX") + sum(1 for s, _ in back_a if s == "MJX")
     ctx.cov["rule"] = ("every kernel input is run through the C function of the tree, the MJX function of the tree and the Coq model: constraint row law "
                        "(synthetic compositions of equality / friction-loss / limit / frictionless / pyramidal rows and elliptic contacts of dim 3, 4, 6, one cone "
